@@ -160,6 +160,17 @@ def gen(rng):
             pre += ["for fi in range(2):", "    if fi == 1:", "        blk = 9", "    else:", "        blk = 3"]
             blk = 9
         pre.append("mon.write(f\"b0={blk}\")")
+        # new globals derived right after the block ran (alone and in a tuple assignment): computed at this point of the prologue
+        pre.append("der = blk * 3")
+        pre.append("dt, du = blk + 1, 7")
+        pre.append("mon.write(f\"d0={der},{dt},{du}\")")
+    # a global set from a literal, changed inside a block of the prologue, then used to derive a new global
+    seed_form = rng.choice(["for", "if", "while", None])
+    if seed_form:
+        pre.append("seedv = 2")
+        pre += {"for": ["for fj in range(3):", "    seedv = seedv + 1"], "if": ["if seedv < 100:", "    seedv = seedv + 3"],
+                "while": ["wj = 3", "while wj > 0:", "    wj -= 1", "    seedv += 1"]}[seed_form]
+        pre += ["der2 = seedv * 3", "mon.write(f\"d1={der2}\")"]
     # pre-loop statements with markers and actions
     for _ in range(rng.randint(1, 5)):
         pre.append(marker("pre"))
@@ -232,7 +243,7 @@ def gen(rng):
     animated = any(".animate(" in x for x in pre)
     baud_seq = bauds
     return "\n".join(L) + "\n", {"pre_ids": pre_ids, "loop_ids": loop_ids, "devices": devices, "has_main": has_main,
-                                 "animated_in_setup": animated and has_main, "bauds": baud_seq, "blk": blk, "opening": opening if has_main else None, "looplocal": has_main and looplocal, "btn_tape": btn_tape, "prologue_read": prologue_read,
+                                 "animated_in_setup": animated and has_main, "bauds": baud_seq, "blk": blk, "seed_form": seed_form, "opening": opening if has_main else None, "looplocal": has_main and looplocal, "btn_tape": btn_tape, "prologue_read": prologue_read,
                                  "callback": any("on_press" in d for w, d in decls)}, tapes
 
 
@@ -270,7 +281,7 @@ def monitor(events, meta, passes):
             text = trace.unesc(f[0])
             if "NOBEGIN" in f[2:]:
                 problems.append(("serial-before-begin", f"Serial used before Serial.begin (line {text!r})"))
-            if text.startswith(("c=", "b=", "b0=", "p=", "p0=", "s=", "l=")):
+            if text.startswith(("c=", "b=", "b0=", "p=", "p0=", "s=", "l=", "d0=", "d1=")):
                 values.append((cur, text))
             if text.startswith("S") and text[1:].isdigit():
                 n = int(text[1:])
@@ -325,6 +336,9 @@ def monitor(events, meta, passes):
         want.append((-1, f"p0={meta['prologue_read']}"))
     if blk is not None:
         want.append((-1, f"b0={blk}"))
+        want.append((-1, f"d0={blk * 3},{blk + 1},7"))
+    if meta.get("seed_form"):
+        want.append((-1, "d1=15"))
     if meta["has_main"]:
         acc = 1
         tape = meta.get("btn_tape") or [0, 1, 1, 0, 1]
